@@ -23,6 +23,7 @@ import Golib.Proof.C09Top
 import Golib.Proof.C09EncInv
 import Golib.Proof.C09Dec
 import Golib.Proof.C09Arena
+import Golib.Proof.C09CredLen
 import Golib.Proof.C08AesInv
 import Golib.Proof.C08GcmInv
 import Golib.Proof.C08GcmSpec
@@ -377,6 +378,43 @@ theorem c09_ctr_counter_is_128bit (key iv : Bytes) (i n : Nat) :
     Enc.ctrBlock ([0,0,0,0,0,0,0,0,0,0,0,7] ++ [255,255,255,255]) 1 = [0,0,0,0,0,0,0,0,0,0,0,8] ++ [0,0,0,0] ∧
     Enc.ctrBlock (List.replicate 16 255) 1 = List.replicate 16 0 :=
   ⟨(ctrBlock_is_be128 iv i).1, (ctrBlock_is_be128 iv i).2, rfl, by decide +kernel, by decide +kernel⟩
+
+/-- `fillCred(cred, salt, secret)` for a destination of ANY length (the code passes the 48-byte
+local array; the function takes a slice): it panics EXACTLY when `len(cred) < 32` (`cred[16:]` /
+`cred[32:]` out of range); otherwise it keeps `len(cred)`, its first 32 bytes are `D1‖D2`, and
+from 48 bytes on its first 48 bytes are the EVP key material `D1‖D2‖D3` and the rest of `cred`
+is untouched (for 32 ≤ len < 48, `copy` truncates the third digest) — for every secret and salt
+length. -/
+theorem c09_fillCred_any_length (md5 : Bytes → Bytes) (hmd : ∀ x, (md5 x).length = 16)
+    (cred salt secret : Bytes) :
+    (cred.length < 32 → fillCred md5 cred salt secret = none) ∧
+    (32 ≤ cred.length → ∃ c, fillCred md5 cred salt secret = some c ∧ c.length = cred.length ∧
+      c.take 32 = md5 (secret ++ salt) ++ md5 (md5 (secret ++ salt) ++ secret ++ salt) ∧
+      (48 ≤ cred.length → c.take 48 = evp md5 secret salt ∧ c.drop 48 = cred.drop 48)) :=
+  fillCred_any_length md5 hmd cred salt secret
+
+/-- LENGTH ARITHMETIC.  The model computes lengths in `Nat`, the code in Go `int` (64 bits here).
+Every length expression of `crypt.go`, `aes.go` and the two `strz` wrappers — the `fillCred`
+buffer `16+len(secret)+len(salt)` and its per-round length `n+len(secret)+len(salt) ≤` that
+capacity, `aes.BlockSize + AESCBCEncryptLen`, `aes.BlockSize + AESGCMEncryptLen`,
+`base64.EncodedLen = (n+2)/3*4`, `hex.EncodedLen = 2n`, `DecodedLen = n/4*3`, `n/2` — stays below
+2^63 for all operand lengths below 2^56 (an existing Go slice on a 64-bit platform is far
+shorter: the address space is 2^47..2^57 bytes), so no `int` wraps and `Nat` arithmetic IS the
+code's arithmetic; the int-overflow edge (`len(secret)` near `MaxInt`) cannot be reached by any
+slice that exists.  The decoded lengths never exceed the input length; `fillCred`'s request is
+the constant 48 = 3 × 16 (`c09_facts_match_model`), there is no caller-chosen output length. -/
+theorem c09_length_arithmetic (s t n : Nat) (hs : s < 2 ^ 56) (ht : t < 2 ^ 56) (hn : n < 2 ^ 56) :
+    16 + s + t < 2 ^ 63 ∧ (∀ k, k ≤ 16 → k + s + t ≤ 16 + s + t) ∧
+    aesBlockSize + cbcEncryptLen n < 2 ^ 63 ∧ cbcEncryptLen n ≤ n + 16 ∧
+    aesBlockSize + gcmEncryptLen n < 2 ^ 63 ∧
+    (n + 2) / 3 * 4 < 2 ^ 63 ∧ 2 * n < 2 ^ 63 ∧ n / 4 * 3 ≤ n ∧ n / 2 ≤ n ∧
+    credLen = 3 * 16 ∧ keyLen + aesBlockSize = credLen ∧ nonceSize ≤ credLen - keyLen := by
+  have he := encLen_eq n
+  refine ⟨by omega, fun k hk => by omega, ?_, ?_, ?_, by omega, by omega, by omega, by omega,
+    by decide, by decide, by decide⟩
+  · simp only [aesBlockSize]; omega
+  · omega
+  · simp only [aesBlockSize, gcmEncryptLen, gcmTagSize]; omega
 
 /-- The facts the model hard-codes, against `Golib/Gen/FactsC09.lean`, which the go/ast
 extractor regenerates from `cryptz/crypt.go` on every run — above all WHICH call fills the
